@@ -31,3 +31,49 @@ def is_line_comment(s):
 def is_block_comment(s):
     """MultiLineComment :: /* MultiLineCommentChars_opt */   (first */ ends it)"""
     return len(s) >= 4 and s.startswith('/*') and s.endswith('*/') and s.find('*/', 2) == len(s) - 2
+
+
+def is_regex_literal(s, flag_chars='abcdefghijklmnopqrstuvwxyzABCDEFGHIJKLMNOPQRSTUVWXYZ0123456789'):
+    """RegularExpressionLiteral :: / RegularExpressionBody / RegularExpressionFlags   (7.8.5)
+
+    No LineTerminator anywhere; the first body character is not * (that would be a comment) and the body is
+    not empty (// is a comment); a class [...] may contain an unescaped /."""
+    lt = '\n\r  '
+    if len(s) < 3 or s[0] != '/':
+        return False
+    i = 1
+    first = True
+    while True:
+        if i >= len(s):
+            return False
+        c = s[i]
+        if c in lt:
+            return False
+        if c == '/':
+            if first:
+                return False
+            break
+        if c == '*' and first:
+            return False
+        if c == '\\':
+            if i + 1 >= len(s) or s[i + 1] in lt:
+                return False
+            i += 2
+        elif c == '[':
+            i += 1
+            while True:
+                if i >= len(s) or s[i] in lt:
+                    return False
+                if s[i] == ']':
+                    i += 1
+                    break
+                if s[i] == '\\':
+                    if i + 1 >= len(s) or s[i + 1] in lt:
+                        return False
+                    i += 2
+                else:
+                    i += 1
+        else:
+            i += 1
+        first = False
+    return all(ch in flag_chars for ch in s[i + 1:])
